@@ -198,6 +198,35 @@ fn main() {
                 let f = gen::gen(fam, n, &mut rng);
                 both_rng(ctx, n, g, &f, tag, true, Some(&mut rng));
             }
+            // functions of three variables on triples of variables (sparse regular tables with many ties
+            // between orbit members): every function for N and P at n = 7 (8 in thorough), sampled for NPN
+            if n >= 7 {
+                let sweep = match g {
+                    Group::N => n <= if thorough { 8 } else { 7 },
+                    Group::P => n <= 7,
+                    Group::Npn => false,
+                };
+                let mut t = 0usize;
+                for a in 0..n {
+                    for b2 in a + 1..n {
+                        for c2 in b2 + 1..n {
+                            t += 1;
+                            if t % chunks != c {
+                                continue;
+                            }
+                            if sweep {
+                                for gg in 0..256u64 {
+                                    let blocks = gen::small_support_blocks(n, &[a, b2, c2], gg);
+                                    both(ctx, n, g, &blocks, "small-support", false);
+                                }
+                            } else if g == Group::Npn && n == 7 && (thorough || t % 4 == 0) {
+                                let blocks = gen::small_support_blocks(n, &[a, b2, c2], rng.next_u64() & 0xff);
+                                both(ctx, n, g, &blocks, "small-support", false);
+                            }
+                        }
+                    }
+                }
+            }
         }
     });
     let mut required = Vec::new();
